@@ -140,6 +140,58 @@ func (j *jv) walk(f func(*jv)) {
 	}
 }
 
+// parse JSON text into a jv, keeping property order and duplicated keys
+func parseJV(text string) (*jv, bool) {
+	dec := json.NewDecoder(strings.NewReader(text))
+	v, err := parseJVValue(dec)
+	return v, err == nil
+}
+
+func parseJVValue(dec *json.Decoder) (*jv, error) {
+	tok, err := dec.Token()
+	if err != nil {
+		return nil, err
+	}
+	switch x := tok.(type) {
+	case json.Delim:
+		if x == '[' {
+			a := &jv{kind: kArr}
+			for dec.More() {
+				v, err := parseJVValue(dec)
+				if err != nil {
+					return nil, err
+				}
+				a.arr = append(a.arr, v)
+			}
+			_, err := dec.Token()
+			return a, err
+		}
+		o := &jv{kind: kObj}
+		for dec.More() {
+			kt, err := dec.Token()
+			if err != nil {
+				return nil, err
+			}
+			v, err := parseJVValue(dec)
+			if err != nil {
+				return nil, err
+			}
+			o.keys = append(o.keys, kt.(string))
+			o.vals = append(o.vals, v)
+		}
+		_, err := dec.Token()
+		return o, err
+	case string:
+		return jstr(x), nil
+	case nil:
+		return jnull(), nil
+	case bool:
+		return &jv{kind: kBool}, nil
+	default:
+		return &jv{kind: kNum}, nil
+	}
+}
+
 // ---------------------------------------------------------------- generators
 
 var segs = []string{"a", "b", "foo", "fo", "foobar", "bar", "x", "lib", "src", "index", "util", "feature"}
@@ -694,7 +746,8 @@ func pctDecode(s string) (string, bool) {
 }
 
 type algOut struct {
-	items map[string][]string
+	prelude string
+	items   map[string][]string
 }
 
 func (a *algOut) add(name, item string) { a.items[name] = append(a.items[name], item) }
@@ -1682,7 +1735,69 @@ func judge(nr nodeGlueRes, er esbRes) string {
 	return ""
 }
 
-func runGlue(r *Rng, n int, tmp string, st *Stats) {
+func cpath(rel string) string {
+	if rel == "." || rel == "" {
+		return "[]"
+	}
+	return cstrs(strings.Split(filepath.ToSlash(rel), "/"))
+}
+
+func copt(s string, ok bool) string {
+	if !ok {
+		return "None"
+	}
+	return "(Some " + s + ")"
+}
+
+// the materialised tree (symlinks left out) as a finite map for the Coq model
+func dumpFS(root string) string {
+	var items []string
+	filepath.Walk(root, func(p string, fi os.FileInfo, err error) error {
+		if err != nil {
+			return nil
+		}
+		rel, _ := filepath.Rel(root, p)
+		if fi.Mode()&os.ModeSymlink != 0 || strings.HasPrefix(filepath.Base(p), ".verif-") || strings.HasPrefix(filepath.Base(p), "driver-") {
+			return nil
+		}
+		if !fi.IsDir() {
+			items = append(items, "("+cpath(rel)+",CF)")
+			return nil
+		}
+		pk := "None"
+		if data, err := os.ReadFile(filepath.Join(p, "package.json")); err == nil {
+			if v, ok := parseJV(string(data)); ok && v.kind == kObj {
+				get := func(k string) *jv { // JSON.parse: the last duplicate wins; esbuild: getProperty takes the LAST too? checked by correspondence
+					var res *jv
+					for i := range v.keys {
+						if v.keys[i] == k {
+							res = v.vals[i]
+						}
+					}
+					return res
+				}
+				str := func(k string) string {
+					if x := get(k); x != nil && x.kind == kStr {
+						return copt(cstr(x.s), true)
+					}
+					return "None"
+				}
+				js := func(k string) string {
+					if x := get(k); x != nil {
+						return copt(x.coq(), true)
+					}
+					return "None"
+				}
+				pk = "(Some (" + str("name") + "," + str("main") + "," + js("exports") + "," + js("imports") + "))"
+			}
+		}
+		items = append(items, "("+cpath(rel)+",CD "+pk+")")
+		return nil
+	})
+	return "[" + strings.Join(items, ";\n  ") + "]"
+}
+
+func runGlue(r *Rng, n int, tmp string, st *Stats, ao *algOut, maxWalk int) {
 	trees := 2 + n/200
 	per := n / 4
 	if per < 40 {
@@ -1719,10 +1834,38 @@ func runGlue(r *Rng, n int, tmp string, st *Stats) {
 			}
 			return d
 		}
+		var wcases []string
 		for i, c := range cases {
 			rel, _ := filepath.Rel(root, c.Importer)
 			verdict := judge(nres[i], eres[i])
 			how := "plugin-resolve"
+			// correspondence of the second-layer model (Walk.v) and specification (NodeWalkSpec.v):
+			// symlinks, absolute specifiers, "?"/"#" suffixes and "%" are not modelled
+			if !strings.Contains(rel, "pkg-l") && !strings.Contains(rel, "linked-src") && !strings.Contains(c.Spec, "pkg-l") &&
+				!strings.Contains(c.Spec, "linked-src") && !strings.HasPrefix(c.Spec, "/") && !strings.ContainsAny(c.Spec, "?%*") &&
+				!(strings.Contains(c.Spec, "#") && !strings.HasPrefix(c.Spec, "#")) && len(t.tagsFor(rel, c.Spec)) == 0 {
+				obs := func(ok, external bool, p string, rejected bool) string {
+					switch {
+					case ok && (external || !strings.HasPrefix(p, "/")):
+						return "1,[]"
+					case ok:
+						rp, err := filepath.Rel(root, p)
+						if err != nil || strings.HasPrefix(rp, "..") {
+							return ""
+						}
+						return "0," + cpath(rp)
+					case rejected:
+						return "3,[]"
+					}
+					return "2,[]"
+				}
+				eo := obs(eres[i].ok, eres[i].external, eres[i].path, false)
+				no := obs(nres[i].OK, false, nres[i].Path, exportsRejectCodes[nres[i].Code])
+				if eo != "" && no != "" && !strings.Contains(eo, "pkg-l") && !strings.Contains(no, "pkg-l") && !strings.Contains(eo, "linked-src") && !strings.Contains(no, "linked-src") {
+					pre := "(" + CBool(c.Kind == "require") + "," + cpath(filepath.Dir(rel)) + "," + cstr(c.Spec) + ","
+					wcases = append(wcases, pre+eo+")|"+pre+no+")")
+				}
+			}
 			if verdict == "" && i%8 == 0 {
 				// same case through the bundler and the metafile
 				em := esbMetafile(root, c, i)
@@ -1762,6 +1905,23 @@ func runGlue(r *Rng, n int, tmp string, st *Stats) {
 			st.Fail("full-stack resolution: "+verdict, input,
 				map[string]interface{}{"esbuild_path": strings.TrimPrefix(eres[i].path, root), "esbuild_errors": eres[i].errs, "external": eres[i].external},
 				map[string]interface{}{"node_ok": nres[i].OK, "node_path": strings.TrimPrefix(nres[i].Path, root), "node_code": nres[i].Code, "node_msg": nres[i].Msg})
+		}
+		if maxWalk > 0 && len(wcases) > maxWalk {
+			// quick tier: the fixed grid (first) plus a slice of the random cases
+			wcases = wcases[:maxWalk]
+		}
+		if len(wcases) > 0 {
+			fsTerm := dumpFS(root)
+			var em, nm []string
+			for _, w := range wcases {
+				parts := strings.SplitN(w, "|", 2)
+				em = append(em, parts[0])
+				nm = append(nm, parts[1])
+			}
+			name := fmt.Sprintf("walk_tree_%d", len(ao.items["walk_model"]))
+			ao.prelude += "Definition " + name + " : cfs := " + fsTerm + ".\n"
+			ao.add("walk_model", "("+name+",\n ["+strings.Join(em, ";\n  ")+"])")
+			ao.add("walk_spec", "("+name+",\n ["+strings.Join(nm, ";\n  ")+"])")
 		}
 		if ti == 0 && len(cases) > 2 {
 			st.Sample(map[string]interface{}{"tree_package_json_files": pkgsDump(), "first_specifiers": []interface{}{cases[0].Spec, cases[1].Spec, cases[2].Spec}})
@@ -1890,7 +2050,19 @@ func runC11(seed uint64, n int, tier string, outDir string) []*Stats {
 	runAlg(r, n, tmp, stAlg, ao)
 	stAlg.Finish("seeded generator (splitmix64): exports/imports maps from the package.json resolution grammar (string, array, nested condition objects in random key order, overlapping * patterns, invalid targets, null, rare duplicate/numeric keys, legacy folder keys) x subpaths derived from the map's own keys (exact, pattern instances, pattern base, odd segments) x condition sets, plus a boundary grid; both esbuild (hook) and Node 20 (--expose-internals) are observed on every case. distinct_nontrivial = distinct (map, subpath, conditions) whose map is an object or array")
 
-	cf := NewCoqFile("From V Require Import Common.Base C11.Str C11.EsbuildResolve C11.NodeSpec C11.Harness.\nLocal Open Scope string_scope.\nLocal Open Scope Z_scope.")
+	stGlue := NewStats("c11-glue", seed)
+	gn := n
+	if tier == "thorough" {
+		gn = n / 2
+	}
+	maxWalk := 140
+	if tier == "thorough" {
+		maxWalk = 0
+	}
+	runGlue(r, gn, tmp, stGlue, ao, maxWalk)
+	stGlue.Finish("materialised trees (root package, nested and hoisted node_modules, scoped package, symlinked package with own dependencies, misnamed package, nested scope) with generated exports/imports maps and the files their targets denote; specifiers: bare/subpath derived from the package's own map, # imports, relative, absolute, query/hash/percent; kinds require and import; esbuild through api.Build (PluginBuild.Resolve; every 8th case also via an entry file and the metafile) vs Node's createRequire().resolve / import.meta.resolve. distinct_nontrivial = distinct (importer, specifier, tree) on which Node either resolves or rejects by an exports/imports map")
+
+	cf := NewCoqFile("From V Require Import Common.Base C11.Str C11.EsbuildResolve C11.NodeSpec C11.Walk C11.NodeWalkSpec C11.Harness.\nLocal Open Scope string_scope.\nLocal Open Scope Z_scope.\n" + ao.prelude)
 	caseT := "cj * sstr * list sstr * (sstr * Z) * (sstr * Z)"
 	specT := "cj * sstr * list sstr * Z * sstr"
 	cf.AddCases("exp_model", caseT, "check_exp_model", ao.items["exp_model"])
@@ -1902,17 +2074,11 @@ func runC11(seed uint64, n int, tier string, outDir string) []*Stats {
 	cf.AddCases("name_spec", "sstr * bool * sstr", "check_name_spec", ao.items["name_spec"])
 	cf.AddCases("seg_model", "sstr * bool", "check_seg_model", ao.items["seg_model"])
 	cf.AddCases("post_model", "sstr * Z * (sstr * Z)", "check_post_model", ao.items["post_model"])
+	cf.AddCases("walk_model", "cfs * list wcase", "check_walk_model", ao.items["walk_model"])
+	cf.AddCases("walk_spec", "cfs * list wcase", "check_walk_spec", ao.items["walk_spec"])
 	if err := os.WriteFile(filepath.Join(outDir, "c11_cases.v"), []byte(cf.String()), 0o644); err != nil {
 		panic(err)
 	}
-
-	stGlue := NewStats("c11-glue", seed)
-	gn := n
-	if tier == "thorough" {
-		gn = n / 2
-	}
-	runGlue(r, gn, tmp, stGlue)
-	stGlue.Finish("materialised trees (root package, nested and hoisted node_modules, scoped package, symlinked package with own dependencies, misnamed package, nested scope) with generated exports/imports maps and the files their targets denote; specifiers: bare/subpath derived from the package's own map, # imports, relative, absolute, query/hash/percent; kinds require and import; esbuild through api.Build (PluginBuild.Resolve; every 8th case also via an entry file and the metafile) vs Node's createRequire().resolve / import.meta.resolve. distinct_nontrivial = distinct (importer, specifier, tree) on which Node either resolves or rejects by an exports/imports map")
 
 	stWit := NewStats("c11-witness", seed)
 	runWitnesses(tmp, stWit)
